@@ -13,7 +13,7 @@ from ..repo import model as M
 NAME = "entry"
 PROPS = ("C19",)
 
-KEYS = ["title", "Title", "a", "b", "year", "TITLE"]
+KEYS = ["title", "Title", "a", "b", "year", "TITLE", " a", "a\u00a0", "b\x85", "year "]   # distinct keys, some only by surrounding white space
 VALS = ["x", "y", "{Braced}", "", 3, ["l", "m"], "x"]
 TYPES = ["article", "book"]
 BKEYS = ["k1", "k2", "K1"]
@@ -74,7 +74,7 @@ def generate(rng, tier, prop):
             ops.append({"op": rng.choice(["cross", "cross", "read_meta"]), "h": h})
             continue
         if rng.random() < 0.06:
-            ops.append({"op": rng.choice(["read_meta", "share_field", "share_field", "shallow"]), "h": h, "k": rng.choice(keys)})
+            ops.append({"op": rng.choice(["read_meta", "share_field", "share_field", "shallow", "rotate", "rotate"]), "h": h, "k": rng.choice(keys)})
             continue
         k = rng.choice(keys)
         kind = rng.choice(["set_field", "set_field", "setitem", "setitem", "pop", "pop_default", "delitem",
@@ -455,7 +455,28 @@ def execute(run, props):
                     return res
             res.probes["shallow_copy_scenario"] += 1
 
-        elif kind in ("share_field", "shallow"):
+        elif kind == "rotate" and subject == "entry":
+            # take a field out and put the very same Field back: same fields, other order
+            label = "rotate"
+            if not m.d:
+                res.skipped += 1
+                res.event(step, label, "skipped", "")
+                continue
+            ks = list(m.d)
+            k = ks[hash_free_index(op.get("k", ""), len(ks))]
+            f = obj.pop(k)
+            if f is not m.d[k]:
+                V("result", "pop", step, f"pop({k!r}) did not return the field held under that key")
+                return res
+            obj.set_field(f)
+            del m.d[k]
+            m.d[k] = f
+            res.sim_steps += 2
+            res.nops += 1
+            res.nontrivial = True
+            res.probes["field_moved_to_the_end"] += 1
+
+        elif kind in ("share_field", "shallow", "rotate"):
             res.skipped += 1
             res.event(step, kind, "skipped", "")
             continue
